@@ -369,20 +369,22 @@ class ObjectTemplate(base.HyperValue, utils.Formattable):
               f'Input={input_value!r})')
         # NOTE: the items are matched here instead of by `utils.merge_tree`,
         # which treats a dict input as a sparse patch of a template list.
+        # The child DNAs follow the order of the template's keys (the order of
+        # `dna_spec`), whatever the key order of the input is.
         for key in template_value.keys():
-          if key not in input_value:
-            _encode(
-                utils.KeyPath(key, path),
-                template_value[key],
-                pg_typing.MISSING_VALUE,
-            )
-        for key, input_item in input_value.items():
           _encode(
               utils.KeyPath(key, path),
-              (template_value[key] if key in template_value
+              template_value[key],
+              (input_value[key] if key in input_value
                else pg_typing.MISSING_VALUE),
-              input_item,
           )
+        for key, input_item in input_value.items():
+          if key not in template_value:
+            _encode(
+                utils.KeyPath(key, path),
+                pg_typing.MISSING_VALUE,
+                input_item,
+            )
       elif isinstance(template_value, symbolic.List):
         if (not isinstance(input_value, list)
             or len(input_value) != len(template_value)):
